@@ -113,16 +113,21 @@ type ExposureTime float32
 // used by encoding/json
 func (et ExposureTime) MarshalText() (text []byte, err error) {
 	a := float64(et)
-	if et == 0.0 || math.IsNaN(a) {
+	if !(a > 0) {
+		// zero, NaN and negative values are not an exposure time (a negative
+		// one used to print as "1/18446744073709551615")
 		return nil, nil
 	}
 	if a < 1.0 {
-		a = float64(1.0 / a)
-		buf := make([]byte, 2, 6)
-		buf[0] = '1'
-		buf[1] = '/'
-		buf = strconv.AppendUint(buf, uint64(math.Round(a*1000)/1000), 10)
-		return buf, nil
+		// (between 1/2 s and 1 s the reciprocal is 1: "1/1" would read back as
+		// one second, so such a time is written in seconds like the longer ones)
+		if d := uint64(math.Round(1.0 / a)); d > 1 {
+			buf := make([]byte, 2, 6)
+			buf[0] = '1'
+			buf[1] = '/'
+			buf = strconv.AppendUint(buf, d, 10)
+			return buf, nil
+		}
 	}
 	return strconv.AppendFloat(nil, a, 'f', 2, 32), nil
 }
